@@ -290,6 +290,12 @@ def oracle(ctx):
             if step == 0: key = ('mulgrid(file):' if 'file' in sc['base'] else 'rectangular:') + key
             ctx.failure('constructed-and-edited-geometries', key, dict(sc, failed_step=step), observed, required)
     ctx.oracle_cases('constructed-and-edited-geometries', len(scs), operations=kinds)
+    # (7) no state carried between calls / objects; caller-owned and default arguments left alone
+    npur = 0
+    for name, key, inp, observed, required in orc.purity_checks(mg, rng):
+        ctx.failure('call-order-and-argument-purity', key, inp, observed, required)
+    ctx.count(('purity', ctx.seed)); npur += 4 * 150 * 3 + 3 + len(orc.DEFAULT_HOLDERS)
+    ctx.oracle_cases('call-order-and-argument-purity', npur)
 
 
 def check_add_layers(mg, inp):
@@ -329,7 +335,7 @@ def run(ctx):
                 'new_dict_key on dictionaries holding the first m generated names minus random holes (fuel |d|+2); the translated add_layers name slice (fuel 3) against the real layer list for '
                 '0..130 layers (+ 702/703, 1208..1210 where the surface name "atm"/"at" would be generated) x conventions x justify x 6 alphabets x spaces; the per-convention tables; '
                 'oracle scenarios: rectangular x 4 conventions x case None/l/u x justify x mixed-case / repeating alphabets; edit sequences (rename atmosphere layer to a name the regenerated sequence reaches, '
-                'refine_layers, refine, rename_column, add_layers) on 3x3x3 grids x conventions x atmosphere types x alphabets and on tests/mulgrid/g1..g7.dat, checked after every step; '
+                'refine_layers, refine, rename_column, add_layers, write-then-read into a fresh or a used object, block_name with a block mapping, other live geometries) on small grids x conventions x atmosphere types x alphabets and on tests/mulgrid/g1..g7.dat, checked after every step, in shuffled order; call-order and argument-purity checks; '
                 'distinct by the full argument tuple')
     ctx.trusted += ['Coq 8.16.1 kernel (coqc); no native_compute', 'translator tools/translate/pyfun.py (Python AST -> Gallina over PTBase.PyVal) and its loop extension tools/props/c17_translate.py (while -> fuel fixpoint, for -> structural fixpoint, add_layers cut down to its name-deciding statements), fail-closed, validated by the extracted-code correspondence on every run',
                     'PTBase.PyVal / PyStr: hand-written semantics of the Python string operations used', 'extraction: ExtrOcamlBasic + ExtrOcamlString, OCaml 4.13.1, ocaml/main.ml']
@@ -373,6 +379,9 @@ def replay(ctx, data):
         except mg.NamingConventionError: return False
         except Exception: return True
     if 'scenario' in inp: return orc.run_scenario(mg, inp, ctx.repo) is not None
+    if 'purity' in inp:
+        import random
+        return any(True for _ in orc.purity_checks(mg, random.Random(0), inp['purity']))
     if 'add_layers' in inp: return not check_add_layers(mg, inp)[0]
     if 'new_name' in inp: return not check_new_names(mg, inp)[0]
     if 'n' in inp and 'convention' in inp:
